@@ -1,6 +1,5 @@
 //@ item: float/src/utils.rs :: shl_digits
 pub fn shl_digits<const B: Word>(value: &IBig, exp: usize) -> IBig
-/*@ #[ref_lhs(value)] @*/
 /*@
     requires B >= 2,
         exp * 64 <= usize::MAX,     // resource (pos_room): the bit count exp * log2(B) of the power-of-two branch fits usize
@@ -9,6 +8,7 @@ pub fn shl_digits<const B: Word>(value: &IBig, exp: usize) -> IBig
         ret.v() == value.v() * ipow(B as int, exp as nat),
 @*/
 {
+    /*@ #[ref_lhs(value)] @*/     // rule D11h; placed in the body so that a `//@@ SIG` of this copy does not see it
     /*@ broadcast use round_int_axioms; @*/
     if exp == 0 {
         /*@ proof { assert(ipow(B as int, 0) == 1); } @*/
